@@ -209,6 +209,39 @@ def c11_static(task):
         r_["verdict"] = "unknown"      # a custom copy protocol may be right; the independence of copies is then decided by the bounded stand-in only
         r_["reason"] = "copy protocol customised by %s: the deep-copy assumption behind the isolation proof is not available" % ", ".join(hooks)
     out["results"].append(r_)
+    # backtests are independent of one another: no function of the package keeps state in a module-level variable (a `global` statement, or a
+    # store / in-place call on a name that is bound at module level and not locally) - class bodies and constants are not affected
+    shared = []
+    for mod in ("core", "algos", "backtest"):
+        tree = prog.trees[mod]
+        modnames = set()
+        for n in tree.body:
+            if isinstance(n, ast.Assign):
+                modnames |= {t.id for t in n.targets if isinstance(t, ast.Name)}
+            elif isinstance(n, (ast.AnnAssign, ast.AugAssign)) and isinstance(n.target, ast.Name):
+                modnames.add(n.target.id)
+        for fn_ in [x for x in ast.walk(tree) if isinstance(x, (ast.FunctionDef, ast.Lambda))]:
+            if isinstance(fn_, ast.Lambda):
+                continue
+            local = {a.arg for a in fn_.args.args + fn_.args.kwonlyargs} | {x.id for x in ast.walk(fn_) if isinstance(x, ast.Name) and isinstance(x.ctx, ast.Store)}
+            for n in ast.walk(fn_):
+                if isinstance(n, ast.Global):
+                    shared.append("global %s in %s (bt/%s.py line %d)" % (", ".join(n.names), fn_.name, mod, n.lineno))
+                tg = []
+                if isinstance(n, ast.Assign):
+                    tg = n.targets
+                elif isinstance(n, (ast.AugAssign, ast.AnnAssign)):
+                    tg = [n.target]
+                for t in tg:
+                    base = t
+                    while isinstance(base, (ast.Subscript, ast.Attribute)):
+                        base = base.value
+                    if base is not t and isinstance(base, ast.Name) and base.id in modnames and base.id not in local:
+                        shared.append("store into module-level %s in %s (bt/%s.py line %d)" % (base.id, fn_.name, mod, n.lineno))
+                if isinstance(n, ast.Call) and isinstance(n.func, ast.Attribute) and isinstance(n.func.value, ast.Name) and n.func.value.id in modnames and n.func.value.id not in local \
+                        and n.func.attr in ("append", "extend", "update", "setdefault", "pop", "clear", "add", "insert", "remove", "__setitem__"):
+                    shared.append("in-place %s.%s in %s (bt/%s.py line %d)" % (n.func.value.id, n.func.attr, fn_.name, mod, n.lineno))
+    out["results"].append(_ob("C11/no-state-is-kept-in-module-level-variables", P, not shared, dict(sites=shared)))
     # universe kept by a strategy is a copy, never the caller's frame
     ssrc = ast.unparse(prog.func("bt.core.StrategyBase.setup").node)
     out["results"].append(_ob("C11/StrategyBase.setup/universe-is-copied", P, "funiverse = universe.copy()" in ssrc and "self._universe = funiverse" in ssrc, {}))
